@@ -40,6 +40,10 @@ pub struct Env {
     /// microseconds (a crash at an arbitrary point; only its files survive).
     #[serde(default)]
     pub crash_first_us: Option<u64>,
+    /// A command that names its input file still inherits a stdin: here a pipe carrying a copy of that input (true)
+    /// instead of /dev/null. It must not matter.
+    #[serde(default)]
+    pub stdin_noise: bool,
     /// Deliver stdin in chunks of this size (only for commands that read stdin).
     pub stdin_chunk: usize,
 }
@@ -67,6 +71,7 @@ impl Env {
             other_cwd: false,
             dirty_out: false,
             crash_first_us: None,
+            stdin_noise: false,
             stdin_chunk: 1 << 20,
         }
     }
@@ -111,6 +116,7 @@ impl Env {
             },
             other_cwd: rng.pct(30),
             dirty_out: rng.pct(35),
+            stdin_noise: rng.pct(30),
             crash_first_us: if rng.pct(25) { Some(*rng.pick(&[0u64, 300, 1000, 2500, 6000, 15000])) } else { None },
             stdin_chunk: *rng.pick(&[1usize, 3, 64, 4096, 1 << 20]),
         }
@@ -138,6 +144,7 @@ impl Env {
             "cwd" => e.other_cwd = false,
             "dirty_out" => e.dirty_out = false,
             "crash_first" => e.crash_first_us = None,
+            "stdin_noise" => e.stdin_noise = false,
             "locale" => {
                 e.locale = None;
                 e.tz = None;
@@ -154,7 +161,7 @@ impl Env {
         e
     }
 
-    pub const DIMS: &'static [&'static str] = &["hash_seed", "dir_order", "cpus", "clock", "heap_pad", "aslr", "stack_pad", "locale", "extra_vars", "cwd", "dirty_out", "crash_first", "stdin_chunk"];
+    pub const DIMS: &'static [&'static str] = &["hash_seed", "dir_order", "cpus", "clock", "heap_pad", "aslr", "stack_pad", "locale", "extra_vars", "cwd", "dirty_out", "crash_first", "stdin_noise", "stdin_chunk"];
 }
 
 #[derive(Clone, Debug, PartialEq, Eq)]
